@@ -11,6 +11,7 @@ import (
 	"sort"
 	"strconv"
 	"strings"
+	"sync"
 	"testing"
 
 	"go4.org/jsonconfig"
@@ -158,6 +159,9 @@ type dpState struct {
 	Dir    dirSnap
 	KV     map[string]string
 	Inside bool
+	// Strict: the state was observed while the real code ran (it is not a synthetic subset of effects), so
+	// a blob whose removal was in flight must be absent or intact, never present with other bytes.
+	Strict bool
 	// torn appends only:
 	TornPack string
 	TornAt   int64  // offset of the torn header in TornPack
@@ -274,7 +278,7 @@ func (v *violation) Error() string { return fmt.Sprintf("[%s/%s] %s", v.Stage, v
 
 // pinUnconstrained makes the model accept whatever the store says about refs
 // whose REMOVAL was in flight (the statement does not constrain them).
-func pinUnconstrained(sto blobserver.Storage, m *vmodel.Map, refs []blob.Ref) (odd bool) {
+func pinUnconstrained(sto blobserver.Storage, m *vmodel.Map, refs []blob.Ref, strict bool) (odd bool, torn *violation) {
 	for _, r := range refs {
 		rc, size, err := sto.Fetch(ctx, r)
 		if err != nil {
@@ -282,16 +286,22 @@ func pinUnconstrained(sto blobserver.Storage, m *vmodel.Map, refs []blob.Ref) (o
 				m.SetAbsent(r)
 				continue
 			}
-			return true
+			return true, nil
 		}
 		data, rerr := io.ReadAll(rc)
 		rc.Close()
 		if rerr != nil || int(size) != len(data) {
-			return true
+			return true, nil
+		}
+		if strict && !hashesTo(r, data) {
+			// a crash state the real code went through (not a synthetic subset): the blob whose removal
+			// was in flight is served as a present blob, but with bytes that are not the blob
+			return false, &violation{Kind: "removal-torn", Ref: r.String(),
+				Msg: fmt.Sprintf("the blob %s, whose removal was in flight at the crash, is fetched as a present blob of %d bytes %q that do not hash to its ref", r, len(data), clip(data, 60))}
 		}
 		m.SetPresent(r, data)
 	}
-	return false
+	return false, nil
 }
 
 // checkIndexSet: after Reindex the index holds exactly the acknowledged,
@@ -375,7 +385,12 @@ func (c *dpCase) checkDPState(st *dpState, pre *vmodel.Map, last histOp, laterBl
 		return m
 	}
 	battery := func(stage string, sto blobserver.Storage, m *vmodel.Map, page int) *violation {
-		if pinUnconstrained(sto, m, unconstrained) {
+		odd, torn := pinUnconstrained(sto, m, unconstrained, st.Strict)
+		if torn != nil {
+			torn.Stage = stage
+			return torn
+		}
+		if odd {
 			evid.R.Label("diskpacked/removal-inflight/blob-in-odd-state")
 			for _, r := range unconstrained {
 				m.SetAbsent(r)
@@ -416,7 +431,7 @@ func (c *dpCase) checkDPState(st *dpState, pre *vmodel.Map, last histOp, laterBl
 			isUnc[r] = true
 		}
 		for _, s := range got {
-			if isUnc[s.ref] {
+			if isUnc[s.ref] && !st.Strict {
 				continue
 			}
 			if !hashesTo(s.ref, s.data) {
@@ -647,7 +662,7 @@ func snapshotStates(o []obs) (states []*dpState) {
 	for i, x := range o {
 		// inside the operation = some effect is durable, but not all of them (observed, not assumed)
 		inside := !same(x, o[0]) && !same(x, o[len(o)-1])
-		states = append(states, &dpState{Class: "snapshot", Dir: x.dir.clone(), KV: kvClone(x.kv), Inside: inside,
+		states = append(states, &dpState{Class: "snapshot", Dir: x.dir.clone(), KV: kvClone(x.kv), Inside: inside, Strict: true,
 			Desc: "snapshot observed at " + x.label, Key: fmt.Sprintf("snap:%d", i)})
 	}
 	return states
@@ -806,7 +821,32 @@ func runDPCase(t *rapid.T) {
 		}
 		observations = append(observations, obs{label: fmt.Sprintf("after index %s #%d", e.Op, nMut), dir: readDir(live), kv: kv.Dump()})
 	}
+	restorePunch := func() {}
+	if last.Kind == "remove" {
+		// the data of a removed blob is erased by a hole punch: observe the pack right before and right
+		// after it. Only for removals of one stored blob: several are erased concurrently, and a snapshot
+		// taken while another goroutine writes is not a state of the disk at one instant.
+		nLive := 0
+		for _, i := range last.Blobs {
+			if pre.State(pool[i].Ref) == vmodel.Present {
+				nLive++
+			}
+		}
+		if nLive == 1 {
+			var pmu sync.Mutex
+			snap := func(when string) func(string, int64, int64) {
+				return func(pack string, off, size int64) {
+					pmu.Lock()
+					defer pmu.Unlock()
+					observations = append(observations, obs{label: fmt.Sprintf("%s erasing %d data bytes at offset %d of %s", when, size, off, filepath.Base(pack)), dir: readDir(live), kv: kv.Dump()})
+					evid.R.Label("diskpacked/removal/observed-" + when + "-data-erase")
+				}
+			}
+			restorePunch = diskpacked.VerifSetPunchHoleHook(snap("before"), snap("after"))
+		}
+	}
 	err = execDP(sto, pool, last, nOps-1)
+	restorePunch()
 	env.BeforeMut, env.AfterHook = nil, nil
 	if err != nil {
 		fail("%v", err)
